@@ -2070,9 +2070,10 @@ fn compress_normal(d: &mut CompressorOxide, callback: &mut CallbackOxide) -> boo
             }
         } else {
             // Try to find a match for the bytes at the current position.
+            // Matches must not reach further back than the window declared in the zlib header.
             let dist_len = d.dict.find_match(
                 lookahead_pos,
-                d.dict.size,
+                cmp::min(d.dict.size, 1 << d.params.window_bits_max),
                 lookahead_size as u32,
                 cur_match_dist,
                 cur_match_len,
@@ -2215,7 +2216,8 @@ fn compress_fast(d: &mut CompressorOxide, callback: &mut CallbackOxide) -> bool 
             d.dict.b.hash[hash as usize] = lookahead_pos as u16;
 
             let mut cur_match_dist = (lookahead_pos - probe_pos) as u16;
-            if cur_match_dist as usize <= d.dict.size {
+            // Matches must not reach further back than the window declared in the zlib header.
+            if cur_match_dist as usize <= cmp::min(d.dict.size, 1 << d.params.window_bits_max) {
                 probe_pos &= LZ_DICT_SIZE_MASK;
 
                 let trigram = d.dict.read_unaligned_u32(probe_pos) & 0xFF_FFFF;
@@ -2468,7 +2470,9 @@ fn compress_inner(
 
     let one_probe = d.params.flags & MAX_PROBES_MASK == 1;
     let greedy = d.params.flags & TDEFL_GREEDY_PARSING_FLAG != 0;
-    let filter_or_rle = d.params.flags & (TDEFL_FILTER_MATCHES | TDEFL_FORCE_ALL_RAW_BLOCKS) != 0;
+    let filter_or_rle = d.params.flags
+        & (TDEFL_FILTER_MATCHES | TDEFL_FORCE_ALL_RAW_BLOCKS | TDEFL_RLE_MATCHES)
+        != 0;
 
     let raw = d.params.flags & TDEFL_FORCE_ALL_RAW_BLOCKS != 0;
 
